@@ -238,6 +238,10 @@ system_flags = [
     r"\recent",
 ]
 
+# How deep search keys may nest: "(..)", NOT and OR each open a new level.
+#
+MAX_SEARCH_KEY_DEPTH = 32
+
 # The list of commands that can be called via 'UID'
 #
 uid_commands = ("copy", "fetch", "move", "search", "store", "expunge")
@@ -412,6 +416,7 @@ class IMAPClientCommand:
         self.command: str | None = None
         self.msg_set: MsgSet = []
         self.fetch_atts: list[FetchAtt] = []
+        self.search_depth = 0
         self.message: EmailMessage
 
         # If we are doing a `STORE.SILENT` command then `silent` is True
@@ -1575,7 +1580,7 @@ class IMAPClientCommand:
             # only one element then just return that element. Otherwise
             # return an 'and' (of the list of elements.)
             #
-            search_key = self._p_paren_list_of(self._p_search_key)
+            search_key = self._p_paren_list_of(self._p_nested_search_key)
             if len(search_key) == 1:
                 return search_key[0]
             return IMAPSearch("and", search_key=search_key)
@@ -1605,6 +1610,23 @@ class IMAPClientCommand:
         # Huh.. we have no idea what this is supposed to be.
         #
         raise UnknownSearchKey
+
+    #######################################################################
+    #
+    def _p_nested_search_key(self) -> IMAPSearch:
+        """
+        A search key inside "(..)", NOT or OR. Search keys nest without a
+        bound in the grammar, but our parser recurses, so we refuse what no
+        client sends instead of running out of stack.
+        """
+        if self.search_depth >= MAX_SEARCH_KEY_DEPTH:
+            raise BadSyntax(
+                value=f"search keys nested deeper than {MAX_SEARCH_KEY_DEPTH}"
+            )
+        self.search_depth += 1
+        search_key = self._p_search_key()
+        self.search_depth -= 1
+        return search_key
 
     #######################################################################
     #
@@ -1726,7 +1748,7 @@ class IMAPClientCommand:
     #
     def _p_srchkey_not(self) -> IMAPSearch:
         self._p_simple_string(" ")
-        return IMAPSearch("not", search_key=self._p_search_key())
+        return IMAPSearch("not", search_key=self._p_nested_search_key())
 
     #######################################################################
     #
@@ -1743,9 +1765,9 @@ class IMAPClientCommand:
     #
     def _p_srchkey_or(self) -> IMAPSearch:
         self._p_simple_string(" ")
-        search_key1 = self._p_search_key()
+        search_key1 = self._p_nested_search_key()
         self._p_simple_string(" ")
-        search_key2 = self._p_search_key()
+        search_key2 = self._p_nested_search_key()
         return IMAPSearch("or", search_key=(search_key1, search_key2))
 
     #######################################################################
